@@ -19,6 +19,13 @@ impl Transcript {
         self.log
     }
     pub fn append_message(&mut self, label: &'static [u8], message: &[u8]) {
+        // merlin's append_u64(label, x) IS append_message(label, LE64(x)): an 8-byte message holding a registered u64 is recorded the same way
+        if message.len() == 8 {
+            let x = u64::from_le_bytes([message[0], message[1], message[2], message[3], message[4], message[5], message[6], message[7]]);
+            if with(|c| c.lookup_u64(x).is_some()) {
+                return self.append_u64(label, x);
+            }
+        }
         self.log = with(|c| {
             let pieces = c.scan(message);
             c.log(LogEntry::Append { parent: self.log, label: label.to_vec(), len: message.len(), pieces })
@@ -107,6 +114,12 @@ impl RngCore for TranscriptRng {
         })
     }
     fn fill_bytes(&mut self, dest: &mut [u8]) {
+        // eight bytes are exactly what next_u64 returns (rand_core builds next_u64 from fill_bytes, little-endian): same registered stand-in
+        if dest.len() == 8 {
+            let x = self.next_u64();
+            dest.copy_from_slice(&x.to_le_bytes());
+            return;
+        }
         let ctr = self.ctr;
         self.ctr += 1;
         with(|c| {
